@@ -1,7 +1,7 @@
 (* C02 - each step solves the discretised TDGL equation on the physical branch.
    Property theorems only; proofs live in Proofs/EulerR.v. *)
 From Coq Require Import Reals List.
-From PyTdgl Require Import Base.Ops Base.Cplx Model.Euler Proofs.EulerR Proofs.EulerNum.
+From PyTdgl Require Import Base.Ops Base.Cplx Model.FV Model.Euler Model.Step Proofs.FVR Proofs.FVC Proofs.EulerR Proofs.EulerNum Proofs.StepNum.
 Open Scope R_scope.
 
 (* the code's z and w are the documented ones *)
@@ -64,6 +64,37 @@ Theorem C02_answered_solves_tdgl_num :
     tdgl_num_lhs U psi p (cabs2 OpsR p) abs2 gamma u dt = tdgl_num_rhs psi lap abs2 eps.
 Proof. exact answered_solves_tdgl_num. Qed.
 Print Assumptions C02_answered_solves_tdgl_num.
+
+(* the whole step solves docs eq. tdgl-num at every free site, with the documented covariant Laplacian
+   (docs eq. laplacian-psi: lap_doc = sum over the edges at r of (s/e)/a_r (U psi_other - psi_r)) *)
+Theorem C02_step_solves_tdgl_num :
+  forall (a : nat -> R) (n : nat) (es : list edgeR) (fixed : list nat) (solve : (nat -> R) -> (nat -> R))
+         (tlink : nat -> C OpsR) (repin : option (C OpsR)) (U : list (C OpsR)) (psi : nat -> C OpsR) (eps : nat -> R)
+         (gamma u dt : R) (muB dAdt : nat -> R) (o : step_out OpsR) (r : nat),
+    step OpsR a n es fixed solve tlink repin U psi eps gamma u dt muB dAdt = Some o ->
+    (r < n)%nat -> ~ In r fixed -> cabs2 OpsR (tlink r) = 1 -> 0 < u -> 0 < dt ->
+    tdgl_num_lhs (tlink r) (psi r) (so_psi _ o r) (cabs2 OpsR (so_psi _ o r)) (cabs2 OpsR (psi r)) gamma u dt
+    = tdgl_num_rhs (psi r) (lap_doc a es U psi r) (cabs2 OpsR (psi r)) (eps r).
+Proof. exact step_solves_tdgl_num. Qed.
+Print Assumptions C02_step_solves_tdgl_num.
+
+(* ... and so does every answered step of a run, from the state the run was in *)
+Theorem C02_run_solves_tdgl_num :
+  forall (a : nat -> R) (n : nat) (es : list edgeR) (fixed : list nat) (solve : (nat -> R) -> (nat -> R))
+         (expi : R -> C OpsR),
+    (forall x, cabs2 OpsR (expi x) = 1) ->
+    forall (repin : option (C OpsR)) (gamma u : R), 0 < u ->
+    forall (l : list (step_in OpsR)) (psi : nat -> C OpsR) (mu : nat -> R) (k : nat) (o : step_out OpsR),
+      nth_error (run_steps OpsR a n es fixed solve repin expi gamma u psi mu l) k = Some (Some o) ->
+      exists i psik muk,
+        nth_error l k = Some i /\ state_before a n es fixed solve expi repin gamma u psi mu l k psik muk /\
+        (0 < si_dt _ i ->
+         forall r, (r < n)%nat -> ~ In r fixed ->
+           tdgl_num_lhs (expi (muk r * si_dt _ i)) (psik r) (so_psi _ o r) (cabs2 OpsR (so_psi _ o r))
+                        (cabs2 OpsR (psik r)) gamma u (si_dt _ i)
+           = tdgl_num_rhs (psik r) (lap_doc a es (si_U _ i) psik r) (cabs2 OpsR (psik r)) (si_eps _ i r)).
+Proof. exact run_solves_tdgl_num. Qed.
+Print Assumptions C02_run_solves_tdgl_num.
 
 (* non-vacuity: a concrete answered site *)
 Example C02_nonvacuous : exists x p, site_update OpsR (1,0) (1,0) 1 1 1 1 1 (0,0) = Some (x, p).
